@@ -90,6 +90,27 @@ def run(rep, tier, seed):
             rep.violation("registry:%s:readback" % r["cls"], "default-constructed %s (code %s): %d bytes written, reading "
                           "them back consumes %s (stream good: %s, exception: %s)"
                           % (r["cls"], r["otField"], r["emitted"], r["consumed"], r["decGood"], r["decThrew"]), r)
+    # ... and through the File API
+    import os
+    dd = os.path.join(vlib.WORK, "c17files")
+    os.makedirs(dd, exist_ok=True)
+    results, other, rc, err = vlib.run_driver(exes["drv_codec"], ["defaults", dd], timeout=900)
+    drecs = [json.loads(ln[4:]) for ln in other if ln.startswith("DEF ")]
+    if rc != 0 or not results or not drecs:
+        rep.violation("defaults:crash", "default objects through File: driver failed rc=%s %s" % (rc, err[-300:]), dict(rc=rc))
+    else:
+        byname = {r["name"]: r for r in drecs}
+        for nm in codec.validate(rep, drecs, "c17f_" + tier, "C17F"):
+            r = byname[nm]
+            kind = "ctor" if r["delivered"] == 0 and r["ctorCode"] != r["code"] or r["backCls"] == "none" and r["ctorCode"] == 0 else "file"
+            rep.violation("registry:%s:%s" % (r["cls"], kind), "default-constructed %s (code %s) written through File (restore points "
+                          "%s, level %s): %d objects read back, first %s under code %s"
+                          % (r["cls"], r["ctorCode"], r["rp"], r["level"], r["delivered"], r["backCls"], r["backCode"]), r)
+        rep.cov["evaluations"] += len(drecs)
+        rep.cov["default_objects_through_file"] = len(drecs)
+    if tier == "thorough":
+        from checks import sesscheck as SC
+        SC.big_stream(rep)          # default objects of every class behind the 4 GiB mark of a stream
     rep.cov["default_objects_roundtripped"] = len(defaults)
     rep.cov["distinct_nontrivial"] = len(recs) + len(defaults)
     rep.assumptions += ["the registry is the annotated include list of File.h at the pinned commit, frozen in Registry.tla"]
